@@ -136,8 +136,10 @@ theorem G03_blind_cases (env : Env) (g : G03) (op : Op) (pre post : View)
         · split at h
           · cases h
           · split at h
-            · exact Or.inr (Or.inr ⟨h, hsd'⟩)
-            · split at h <;> exact Or.inr (Or.inr ⟨h, hsd'⟩)
+            · cases h
+            · split at h
+              · exact Or.inr (Or.inr ⟨h, hsd'⟩)
+              · split at h <;> exact Or.inr (Or.inr ⟨h, hsd'⟩)
 
 /-! ### the invariant -/
 
@@ -152,14 +154,14 @@ def Adm18 (K : Option String) (g : G18) (op : Op) : Prop := Adm03 K g.g3 op
 theorem step03 (env : Env) (K : Option String) (w : World) (g : G03) (op : Op) (pre : View)
     (hadm : Adm03 K g op) (hinv : Inv03 env K w g) (hshow : ShowsDisk w pre) :
     Step03 env K w g op pre (G03.next env g op pre (postView env w op)) := by
-  obtain ⟨hop, hsame⟩ := hadm
+  have hop : InitKey K op := hadm
   cases he : entersWith w.config op with
   | none => exact step03_noenter env K w g op pre hinv he
   | some c =>
     by_cases hst : Settled w.disk c.version
     · by_cases hsu : op = .success
       · subst hsu; exact step03_success env K w g pre c hinv hshow he hst
-      · exact step03_enter env K w g op pre c hsame hinv hshow he (entersWith_key K w op c hinv.2.1 hop he) hst hsu
+      · exact step03_enter env K w g op pre c hinv hshow he (entersWith_key K w op c hinv.2.1 hop he) hst hsu
     · exact step03_unsettled env K w g op pre c hinv hshow he hst
 
 theorem startsNow_iff (cfg : Option Config) (op : Op) : startsNow cfg op = true ↔ op = .start ∧ cfg ≠ none := by
@@ -368,7 +370,7 @@ theorem step18 (env : Env) (K : Option String) (w : World) (g : G18) (op : Op) (
     Inv18 env K (step env w op).1 (mon18.next env g op pre (postView env w op)) := by
   have hinv0 := hinv
   obtain ⟨hcfg, hI3, hrun, hidle⟩ := hinv
-  have hop : InitKey K op := hadm.1
+  have hop : InitKey K op := hadm
   have hK := hI3.2.1
   have S3 := step03 env K w g.g3 op pre hadm hI3 hs
   have hI3' : Inv03 env K (step env w op).1 (G03.next env g.g3 op pre (postView env w op)) :=
